@@ -35,6 +35,10 @@ class Infeasible(Exception):
     """Path condition became unsatisfiable / path deliberately cut."""
 
 
+class LoopCut(Infeasible):
+    """end of the arbitrary-iteration path of a loop rule: the path stops here, its obligations count"""
+
+
 class SNum(object):
     __slots__ = ('t',)
 
